@@ -348,6 +348,18 @@ func c11Tables(p *Prog, r *Report) {
 	r.Tables["server_sentinel_to_status_code"] = tableJSON(t.ToCode)
 	r.Tables["client_status_code_to_sentinel"] = tableJSON(t.FromCode)
 	if t.ToPb == nil || t.FromPb == nil {
+		// tables and search helpers instead of switches: the adapter's entry points are run on abstract errors
+		var t2 errTables
+		if c11TablesByEval(p, &t2) {
+			t = t2
+			fromCodeFn = p.Func(kAdClientErr)
+			r.Tables["server_sentinel_to_detail_code"] = tableJSON(t.ToPb)
+			r.Tables["client_detail_code_to_sentinel"] = tableJSON(t.FromPb)
+			r.Tables["server_sentinel_to_status_code"] = tableJSON(t.ToCode)
+			r.Tables["client_status_code_to_sentinel"] = tableJSON(t.FromCode)
+		}
+	}
+	if t.ToPb == nil || t.FromPb == nil {
 		r.Undecided("C11.a", "detail-tables", "", "the typed-detail tables of the adapter could not be located (a tagless switch over errors.Is assigning an ErrorCode, and a switch over ErrorCode)")
 		return
 	}
@@ -1144,6 +1156,33 @@ func c11ClientFlows(p *Prog, r *Report) {
 		}
 		f := p.FlatOf(fi)
 		idx := map[string]int{}
+		// the messages of a stream received through an iterator of the module (for chunk, err := range Chunks(stream)):
+		// the error it yields is the error of Recv
+		for _, rs := range rangeLoops(fi.Decl.Body) {
+			ic, ok := ast.Unparen(rs.X).(*ast.CallExpr)
+			if !ok || rs.Value == nil {
+				continue
+			}
+			lit, _ := p.errIterator(fi.Pkg, ic)
+			if lit == nil {
+				continue
+			}
+			receives := false
+			ast.Inspect(lit.Lit.Body, func(x ast.Node) bool {
+				if c, ok := x.(*ast.CallExpr); ok {
+					if sel, ok := ast.Unparen(c.Fun).(*ast.SelectorExpr); ok && sel.Sel.Name == "Recv" && p.staticCallee(lit.Pkg, c) == nil {
+						receives = true
+					}
+				}
+				return true
+			})
+			if eo := objOf(fi.Pkg.TypesInfo, rs.Value); receives && eo != nil && isErrorType(eo.Type()) {
+				nSources++
+				o2 := opts
+				o2.Tolerated = nil
+				f.RangeErrConsumed(r, "C11.d", fmt.Sprintf("%s#iterator/%s", fi.Key, types.ExprString(ic.Fun)), fi, rs, eo, o2)
+			}
+		}
 		for _, n := range f.Nodes {
 			if n.Ast == nil {
 				continue
